@@ -2,7 +2,7 @@
 Driver handler for the extended command line interpreter (Cli/Argparse.lean).
 
   dispatchx <tool: 0 cnfgen | 1 pbgen> <kind: 0 formula | 1 transformation> <name> <ord> <argv…>
-      what the command line builds: `OK CALL …` (same text as `dispatch`), `OK FORMULA <nvars> <clauses>`,
+      answer `<by the tables regenerated from the source> ## <by the documented tables>`, each: `OK CALL …` (same text as `dispatch`), `OK FORMULA <nvars> <clauses>`,
       `OK SAME`, `EXIT 0` (help), `ERR CLIError`, `ERR <exception>`, `UNSUPPORTED`.
       <ord>: the number of vertices of every graph given as a FILE on this command line.
   dispatchx_supported <kind>                       names of the sub-commands handled
@@ -11,6 +11,7 @@ Driver handler for the extended command line interpreter (Cli/Argparse.lean).
 import CnfgenModel.Driver.Util
 import CnfgenModel.Driver.Dispatch
 import CnfgenModel.Cli.Argparse
+import CnfgenModel.Cli.DispatchDoc
 namespace Cnfgen.Driver.Argparse
 open Cnfgen Cnfgen.Driver Cnfgen.Cli Cnfgen.Cli.AP Cnfgen.Gen
 
@@ -37,11 +38,25 @@ def fmtItem : Item → String
   | .unknown _ => "U"
   | .ambiguous _ => "AMBIGUOUS"
 
+/-- the DOCUMENTED side: the reviewed snapshot (Cli/Documented.lean) for the sub-commands that make a library call,
+the pinned bodies (`inlinePinned`) for the ones that build their formula inline -/
+def docSpecX (s : CliSpec) : CliSpec :=
+  match documentedSpec s.kind s.name with
+  | some d => d
+  | none =>
+    match inlinePinned.lookup s.cls with
+    | some ts => { s with templates := ts }
+    | none => s
+
 def handle (opname : String) (a : Args) : Option String :=
   match opname with
   | "dispatchx" => run (do
       let tl ← int; let k ← int; let name ← str; let ord ← nat; let argv ← listOf str
-      pure (fmtBuilt (dispatchNamedX (toolName tl) (fun _ => ord) (Dispatch.kindName k) name argv))) a
+      let cur := fmtBuilt (dispatchNamedX (toolName tl) (fun _ => ord) (Dispatch.kindName k) name argv)
+      let doc := match cliSpecs.find? (fun s => s.kind == Dispatch.kindName k && s.name == name) with
+        | some s => fmtBuilt (dispatchSpecX (toolName tl) (fun _ => ord) (docSpecX s) argv)
+        | none => "UNSUPPORTED"
+      pure (cur ++ " ## " ++ doc)) a
   | "dispatchx_supported" => run (do
       let k ← int
       pure (ok (" ".intercalate (supportedNamesX (Dispatch.kindName k))))) a
